@@ -148,6 +148,9 @@ def coq_build_all(timeout=3000):
     return sh("make -j%d" % NCPU, cwd=COQ, timeout=timeout)
 
 
+TIER = "quick"
+LAST_COQCHK = None
+
 ALLOWED_AXIOMS = {
     # standard-library axioms, named in DESIGN.md section 9 where a theorem depends on them
     "Classical_Prop.classic",
@@ -198,6 +201,21 @@ def coq_check_props(pid, timeout=3000):
     if hits:
         res["ok"] = False
         res["log"] += "\n[forbidden tokens]\n" + "\n".join(hits[:20])
+    if rc == 0 and TIER == "thorough":
+        # independent re-check of the compiled cone of this property, and the axioms it relies on
+        rc2, out2 = sh("coqchk -o -silent -Q . BC BC.Props.%s" % pid, cwd=COQ, timeout=3000)
+        chk_axioms = re.findall(r"^\s+(Coq\.[\w.']+)\s*$", out2.split("* Axioms:")[1].split("* Constants")[0], re.M) if "* Axioms:" in out2 else []
+        chk_axioms = [a[4:] if a.startswith("Coq.") else a for a in chk_axioms]
+        short = {a.split(".", 1)[1] if a.count(".") > 1 else a for a in chk_axioms}          # Logic.X.y -> X.y
+        bad = sorted(a for a in short if a not in ALLOWED_AXIOMS and not any(a.endswith(x) or x.endswith(a) for x in ALLOWED_AXIOMS))
+        unsafe = [l.strip() for l in out2.split("\n") if "relying on" in l or "assumed" in l]
+        not_none = [l for l in unsafe if not l.endswith("<none>")]
+        res["coqchk"] = {"ok": rc2 == 0 and not bad and not not_none, "axioms": sorted(short), "unsafe": unsafe}
+        global LAST_COQCHK
+        LAST_COQCHK = res["coqchk"]
+        if rc2 != 0 or bad or not_none:
+            res["ok"] = False
+            res["log"] += "\n[coqchk]\n" + out2[-2000:]
     return res
 
 
@@ -365,6 +383,8 @@ class Report:
         cov["obligations"] = len(self.obligations)
         cov["discharged"] = sum(1 for _, ok in self.obligations if ok)
         cov["obligation_list"] = [{"name": n, "discharged": ok} for n, ok in self.obligations]
+        if LAST_COQCHK is not None:
+            cov["coqchk"] = LAST_COQCHK
         nviol = len(self.failing) + (1 if (not self.failing and (self.disagree or self.broken)) else 0)
         write_evidence(self.pid, self.tier, self.seed, level, cov, self.assumptions,
                        time.time() - self.t0, nviol)
